@@ -408,6 +408,17 @@ pub enum Out {
     Iter(IterOut),
 }
 
+/// `Op::Resize(n)`: the three largest u16 values stand for huge capacities ("resize to any
+/// value": an effectively unbounded cache)
+pub fn resize_target(n: u16) -> usize {
+    match n {
+        65535 => usize::MAX,
+        65534 => usize::MAX / 2,
+        65533 => 1usize << 32,
+        n => n as usize,
+    }
+}
+
 /// token written by step `i` (sub-index `j` for ops that write several values)
 pub fn token(i: usize, j: usize) -> u32 {
     ((i as u32) + 1) * 128 + (j as u32 % 128)
